@@ -306,3 +306,53 @@ func (p *Program) reachableFuncs(roots []*ssa.Function, cha bool) map[*ssa.Funct
 	}
 	return seen
 }
+
+// assertionWrapper: fn is `func(x I) (*T, bool) { v, ok := x.(*T); return v, ok }` (a comma-ok
+// assertion and nothing else). Returns the asserted type.
+func (p *Program) assertionWrapper(fn *ssa.Function) (types.Type, bool) {
+	if fn == nil || fn.Blocks == nil || len(fn.Blocks) != 1 || len(fn.Params) != 1 || fn.Signature.Results().Len() != 2 || !p.isFirstParty(fn) {
+		return nil, false
+	}
+	var ta *ssa.TypeAssert
+	for _, in := range fn.Blocks[0].Instrs {
+		switch x := in.(type) {
+		case *ssa.TypeAssert:
+			if ta != nil || !x.CommaOk || x.X != ssa.Value(fn.Params[0]) {
+				return nil, false
+			}
+			ta = x
+		case *ssa.Extract, *ssa.DebugRef:
+		case *ssa.Return:
+			if ta == nil || len(x.Results) != 2 {
+				return nil, false
+			}
+			e0, ok0 := x.Results[0].(*ssa.Extract)
+			e1, ok1 := x.Results[1].(*ssa.Extract)
+			if !ok0 || !ok1 || e0.Tuple != ssa.Value(ta) || e1.Tuple != ssa.Value(ta) || e0.Index != 0 || e1.Index != 1 {
+				return nil, false
+			}
+		default:
+			return nil, false
+		}
+	}
+	if ta == nil {
+		return nil, false
+	}
+	return ta.AssertedType, true
+}
+
+// assertOf: ex is result #idx of a comma-ok assertion of x to T, written directly or through
+// an assertion wrapper.
+func (p *Program) assertOf(ex *ssa.Extract) (x ssa.Value, T types.Type, ok bool) {
+	switch t := ex.Tuple.(type) {
+	case *ssa.TypeAssert:
+		if t.CommaOk {
+			return t.X, t.AssertedType, true
+		}
+	case *ssa.Call:
+		if at, isW := p.assertionWrapper(t.Common().StaticCallee()); isW && len(t.Common().Args) == 1 {
+			return t.Common().Args[0], at, true
+		}
+	}
+	return nil, nil, false
+}
